@@ -326,6 +326,8 @@ def fill_doc(rec, rnd):
         k, d = it["k"], it["d"]
         if k == "open":
             out.append("<" + it["n"] + rnd.choice(ATTRS[d]) + ">")
+        elif k == "uopen":
+            out.append("<" + it["n"] + ">")
         elif k == "close":
             out.append("</" + it["n"] + (" " if d == "space" else "") + ">")
         elif k == "void":
